@@ -26,16 +26,10 @@ Fixpoint nunion (a b : list nat) : list nat :=
 Definition step_all (f : nat -> list nat) (is : list nat) : list nat :=
   fold_right (fun i acc => nunion (f i) acc) [] is.
 
-(* positions reachable by iterating f from the frontier; acc = everything found so far *)
-Fixpoint closure (f : nat -> list nat) (fuel : nat) (acc fr : list nat) : list nat :=
-  match fuel with
-  | O => acc
-  | S k => let nw := filter (fun j => negb (nmem j acc)) (step_all f fr) in
-           match nw with [] => acc | _ => closure f k (acc ++ nw) nw end
-  end.
 Fixpoint iter_n (f : nat -> list nat) (n : nat) (is : list nat) : list nat :=
   match n with O => is | S k => iter_n f k (step_all f is) end.
-(* up to n further iterations, collecting *)
+(* up to n further iterations, collecting. A repetition is matched with fuel = number of positions left in the subject:
+   an iteration that consumes nothing adds nothing, so longer chains reach no new position (proved in RegexSem.v) *)
 Fixpoint iter_upto (f : nat -> list nat) (n : nat) (is : list nat) : list nat :=
   match n with O => is | S k => nunion is (iter_upto f k (step_all f is)) end.
 
@@ -68,13 +62,13 @@ Fixpoint ends (w : list N) (r : re) (i : nat) {struct r} : list nat :=
   | RWordB => if xorb (word_before w i) (word_at w i) then [i] else []
   | RNoWordB => if xorb (word_before w i) (word_at w i) then [] else [i]
   | RCapture a => ends w a i
-  | RStar a => closure (ends w a) (S (length w)) [i] [i]
-  | RPlus a => let s := ends w a i in closure (ends w a) (S (length w)) s s
+  | RStar a => iter_upto (ends w a) (length w - i) [i]
+  | RPlus a => iter_upto (ends w a) (length w - i) (ends w a i)
   | RQuest a => nunion [i] (ends w a i)
   | RRepeat mn mx a =>
       let s := iter_n (ends w a) mn [i] in
       match mx with
-      | None => closure (ends w a) (S (length w)) s s
+      | None => iter_upto (ends w a) (length w - i) s
       | Some m => iter_upto (ends w a) (m - mn) s
       end
   | RConcat rs => (fix go (l : list re) (is : list nat) : list nat :=
